@@ -302,11 +302,7 @@ func workers() int {
 	if v, err := strconv.Atoi(os.Getenv("VERIF_WORKERS")); err == nil && v > 0 {
 		return v
 	}
-	n := runtime.NumCPU()
-	if n > 8 {
-		n = 8
-	}
-	return n
+	return runtime.NumCPU()
 }
 
 func main() {
@@ -323,8 +319,35 @@ func main() {
 		vio.Emit(map[string]interface{}{"altsp_accepted": r == "ok"})
 		return
 	}
+	if len(os.Args) >= 4 && os.Args[1] == "replay" {
+		// re-execute one recorded execution (a replays/*.json object on stdin) on the real contracts
+		var rp struct {
+			History []*act          `json:"history"`
+			Ghost   json.RawMessage `json:"ghost"`
+			Init    json.RawMessage `json:"init"`
+			Steps   []step          `json:"steps"`
+		}
+		ls := vio.ReadLines()
+		if len(ls) == 0 || json.Unmarshal(ls[0], &rp) != nil {
+			vio.Fatal("replay: bad input")
+		}
+		nv, _ := strconv.Atoi(os.Args[3])
+		r := &runner{n: newNames(vio.Seed()), nv: nv, mode: os.Args[2], tab: labelTab{}, pool: make(chan *world, 4)}
+		var sfx []*act
+		for i := range rp.Steps {
+			sfx = append(sfx, rp.Steps[i].A)
+		}
+		for _, a := range append(append([]*act{}, rp.History...), sfx...) {
+			if a.T == "ap" || a.T == "round" {
+				r.n.labelsFor(a, r.tab)
+			}
+		}
+		init, steps := r.run(areaOf(rp.Init), rp.History, sfx)
+		vio.Emit(map[string]interface{}{"trace": trace{Kind: "replay", G: rp.Ghost, H: rp.History, Init: init, Steps: steps}})
+		return
+	}
 	if len(os.Args) < 4 || os.Args[1] != "edges" {
-		vio.Fatal("usage: vd-gov edges <mode C32|C33|C34|C35> <NV> [depth] [cap]   (edges on stdin)")
+		vio.Fatal("usage: vd-gov edges|replay <mode C32|C33|C34|C35> <NV> [depth] [cap]   (edges / replay object on stdin) | vd-gov probe")
 	}
 	mode := os.Args[2]
 	nv, _ := strconv.Atoi(os.Args[3])
